@@ -445,11 +445,11 @@ func lcOps(which string, thorough bool) []lcOp {
 
 func init() {
 	vRegister(&vCheck{
-		id: "C21", level: "model_checking", flavour: "vtime",
+		id: "C21", level: "model_checking", flavour: "vtime", also: []string{"C21.conc"},
 		shards: func(string) int { return 16 },
 		rule: "breadth-first search over sequences of Put / PutNegative / Get / Invalidate / InvalidateNegativeInDir / Resize{1,3} / UpdateTTL / ConfigureNegativeCaching{on,off} / Clear and clock advances {negTTL-1ns, negTTL+1ns, ttl-negTTL, 1ns} on the real AttrCache (capacity 2) and DirCache (capacity 2, maxDirSize 2, listings of 0..3 entries), keys {/a,/a/x,/ab,/b} (thorough adds / and /a/x/y), depth 4 (thorough 5), states deduplicated on (model entries with relative expiry, LRU order, settings). After every transition the implementation's map and LRU list are read in-package and compared with a reference LRU/TTL model; every Get is compared with the model (most recent unexpired, un-invalidated, un-evicted value or nothing; negative entries only while enabled); values passed to Put and returned by Get are mutated by the harness afterwards (copy isolation).",
 		assumptions: []string{"a Get at exactly the expiry instant may answer either way", "after an eviction that happened while an expired entry was present the LRU order is not judged (an implementation may purge expired entries first); soundness clauses are still checked",
-			"this check covers the sequential clause of C21; the concurrent clause is explored by the scheduler-based check (C21 sched scenarios) when built"},
+			"the sequential clause is decided by the breadth-first search, the concurrent clause by part C21.conc (scheduler)"},
 		run: func(c *vCtx) {
 			depth := 4
 			if c.thorough() {
